@@ -77,6 +77,8 @@ def evaluate(pid, checks=None):
                 print(pid, n, c, 'exit', rc, (vio[0].strip() if vio else 'NOT DETECTED'), detail.get('oracle') or detail.get('kind'))
         finally:
             sh('git -C /repo checkout -- .')
+            for tool in ('asm_extract.py', 'gh_extract.py', 'consts_extract.py'):   # generated Coq inputs back to the clean tree's
+                sh('python3 %s/tools/%s' % (V, tool))
         json.dump(meta, open(mf, 'w'), indent=1)
 if __name__ == '__main__':
     if sys.argv[1] == 'confirm': confirm(sys.argv[2])
